@@ -99,7 +99,7 @@ theorem abort_flowInv {s : State} (hi : FlowInv s) (n u : Nat) (d : Bool) (s' : 
   | some f =>
   rcases abort_ends_instance n s u d s' f hfu h with ⟨_, _, e, hne⟩ | ⟨f', hf', hl', _⟩
   · rw [e]
-    exact hi.of_good (Good.setFlow_keep hfu ⟨rfl, rfl, rfl, rfl, rfl, Or.inl rfl, fun _ h => h, by simp⟩ rfl
+    exact hi.of_good (Good.setFlow_keep hfu ⟨rfl, rfl, fun h => h, rfl, rfl, Or.inl rfl, fun _ h => h, by simp⟩ rfl
       (Or.inr (fun ha _ => absurd ha hne)))
   · obtain ⟨s6, g, tail⟩ := abortFlow_good_any n NoEx s u d s' hi.sfc h
     rcases tail with e | hr
